@@ -67,7 +67,8 @@ def run_native(exe, inputs, extra_args=()):
     args += list(extra_args)
     env = dict(os.environ); env['ASAN_OPTIONS'] = 'detect_leaks=0:abort_on_error=0'; env['UBSAN_OPTIONS'] = 'print_stacktrace=1'
     try:
-        p = subprocess.run(args, capture_output=True, text=True, timeout=120, env=env)
+        p = subprocess.run(args, capture_output=True, timeout=120, env=env)
+        p.stdout = p.stdout.decode('utf-8', 'replace'); p.stderr = p.stderr.decode('utf-8', 'replace')
     except subprocess.TimeoutExpired:
         return None, 'native replay timed out'
     out = (p.stdout + p.stderr)[-4000:]
